@@ -88,9 +88,9 @@ type enumInfo struct {
 }
 
 type fileInfo struct {
-	fd      *descriptorpb.FileDescriptorProto
-	syntax  string
-	visible map[int]bool
+	fd           *descriptorpb.FileDescriptorProto
+	syntax       string
+	visible      map[int]bool
 	isOptSchema  bool
 	implicitFile bool // editions: file-level field_presence = IMPLICIT
 	closedFile   bool // editions: file-level enum_type = CLOSED
@@ -1093,15 +1093,43 @@ func (g *gstate) genExtensions(fi *fileInfo, scope string, list *[]*descriptorpb
 		if repeated {
 			f.Label = descriptorpb.FieldDescriptorProto_LABEL_REPEATED.Enum()
 		}
-		switch g.rng.Intn(4) {
-		case 0:
+		grp := false
+		if fi.syntax == "proto2" && msgs != nil && g.rng.Chance(0.2) {
+			// a group declared inside the extend block: the field and its message type come from one declaration
+			gn := g.fresh(scope, []string{"XGrp", "ExtGroup", "XG", "GrpExt"})
+			fname := strings.ToLower(gn)
+			if _, taken := g.used[joinName(scope, fname)]; !taken {
+				g.claim(joinName(scope, gn))
+				g.claim(joinName(scope, fname))
+				delete(g.used, joinName(scope, name))
+				name = fname
+				f.Name = proto.String(name)
+				gd := &descriptorpb.DescriptorProto{Name: proto.String(gn)}
+				fidx := 0
+				for k, x := range g.files {
+					if x == fi {
+						fidx = k
+					}
+				}
+				gi := &msgInfo{fqn: joinName(scope, gn), file: fidx, d: gd, synth: true, syntax: fi.syntax}
+				g.fillGroup(fi, gi)
+				*msgs = append(*msgs, gd)
+				f.Type = descriptorpb.FieldDescriptorProto_TYPE_GROUP.Enum()
+				f.TypeName = proto.String("." + gi.fqn)
+				grp = true
+				g.tag("extension:group")
+			}
+		}
+		switch k := g.rng.Intn(4); {
+		case grp:
+		case k == 0:
 			if ms := g.visibleMsgs(fi); len(ms) > 0 {
 				f.Type = descriptorpb.FieldDescriptorProto_TYPE_MESSAGE.Enum()
 				f.TypeName = proto.String("." + ms[g.rng.Intn(len(ms))].fqn)
 				break
 			}
 			fallthrough
-		case 1:
+		case k == 1:
 			if es := g.visibleEnums(fi, false); len(es) > 0 {
 				f.Type = descriptorpb.FieldDescriptorProto_TYPE_ENUM.Enum()
 				f.TypeName = proto.String("." + es[g.rng.Intn(len(es))].fqn)
@@ -1116,7 +1144,6 @@ func (g *gstate) genExtensions(fi *fileInfo, scope string, list *[]*descriptorpb
 		*list = append(*list, f)
 		g.tag("extension")
 	}
-	_ = msgs
 }
 
 func min64(a, b int64) int64 {
